@@ -2,7 +2,7 @@
 run vs manual replay with default arguments on the same deck)."""
 from __future__ import annotations
 
-from vflib import gen, driver, hist, twin
+from vflib import gen, driver, hist, twin, load
 from vflib.driver import Monitor, opname, AUTO_OF, OPS, QUERY
 
 PROP = 'C09'
@@ -38,7 +38,7 @@ REQUIRED = ('twin_pairs', 'automated_steps_replayed_with_defaults',
             'subsets_seen', 'client_call_sequences_compared',
             'stud_fallback_twins',
             'observer_query_points',
-            'forks')
+            'forks', 'reshuffles_compared')
 
 CUSTOMS = ('kuhn', 'draw5', 'stud5', 'greek', 'courchevel', 'holdem8',
            'plo8', 'badugi1', 'razzdraw', 'random')
@@ -61,12 +61,16 @@ class TwinMonitor(Monitor):
         cfg = ctx.cfg
         S = set(cfg['autos'])
         log = list(a.operations)
+        requests = []
+        load.SHUFFLE_TRACE[0] = requests
         try:
             b = twin.fresh_state(cfg, autos=())
         except Exception as exc:   # noqa: BLE001
             ctx.violate(f'manual twin could not be constructed: '
                         f'{type(exc).__name__}: {exc}')
             return
+        finally:
+            load.SHUFFLE_TRACE[0] = None
         ctx.counters['twin_pairs'] += 1
 
         def compare_point(where):
@@ -124,15 +128,18 @@ class TwinMonitor(Monitor):
                 ctx.counters['automated_steps_replayed_with_defaults'] += 1
             else:
                 _, args = twin.call_for(op)
+            load.SHUFFLE_TRACE[0] = requests
             try:
                 got = getattr(b, name)(*args)
             except Exception as exc:   # noqa: BLE001
+                load.SHUFFLE_TRACE[0] = None
                 ctx.violate(
                     f'operation #{k} {op!r} of the automated run '
                     f'({"automated, default arguments" if automated else "player decision"}'
                     f') is refused by the manual twin: '
                     f'{type(exc).__name__}: {exc}')
                 return
+            load.SHUFFLE_TRACE[0] = None
             if got != op:
                 ctx.violate(
                     f'operation #{k}: automated run logged {op!r}, the '
@@ -152,6 +159,25 @@ class TwinMonitor(Monitor):
         d = twin.diff(fa, fb)
         if d:
             ctx.violate(f'final: state fields differ: {d}')
+        # "given the same shuffled deck": the operations of both runs must
+        # ask the shuffler for the same things in the same order (requests
+        # made by the harness's own queries are not recorded), or a real
+        # random generator would hand the two runs different decks
+        mine = ctx.data.get('shuffle_requests')
+        if mine is not None and 'forked' not in ctx.data:
+            ctx.counters['shuffle_request_sequences_compared'] += 1
+            if len(mine) > 1:
+                ctx.counters['reshuffles_compared'] += len(mine) - 1
+            if mine != requests:
+                k = next((i for i, (x, y) in enumerate(zip(mine, requests))
+                          if x != y), min(len(mine), len(requests)))
+                ctx.violate(
+                    f'the operations of the automated run asked for '
+                    f'{len(mine)} shuffles, those of the manual twin for '
+                    f'{len(requests)}; first difference at request #{k}: '
+                    f'automated {mine[k:k + 1]} vs manual '
+                    f'{requests[k:k + 1]} (with a real random generator the '
+                    f'two runs would not see the same shuffled deck)')
         if 0 < len(S) < 11:
             ctx.tag('proper-subset')
 
